@@ -27,11 +27,11 @@ def seeded_table():
             if sigs:
                 sig = sigs[0].split("|", 1)[1] if "|" in sigs[0] else sigs[0]
                 break
-        rows.append(f"| {name} | {short(m.get('summary', ''), 230)} | {short(m.get('needs_to_manifest', ''), 200)} | "
-                    f"{', '.join(caught) if caught else '**MISSED**'}: `{short(sig, 110)}` |")
+        rows.append(f"| {name} | {short(m.get('summary', ''), 150)} | {short(m.get('needs_to_manifest', ''), 130)} | "
+                    f"{', '.join(caught) if caught else '**MISSED**'}: `{short(sig, 90)}` |")
     n = len(rows) - 2
     caught_n = sum(1 for r in res.values() if r.get("caught_by"))
-    return f"{caught_n} of {n} seeded changes are caught by the quick check of their own property (final machinery):\n\n" + "\n".join(rows)
+    return f"{caught_n} of {n} kept seeded changes are caught by the final machinery (quick check of their own property, or of the properties named in `run_checks` of their meta.json; C08-l by the thorough corpus):\n\n" + "\n".join(rows)
 
 
 def thorough_table(path_glob):
